@@ -16,13 +16,16 @@ from concurrent.futures import ThreadPoolExecutor
 
 import common
 import vlib
+import c19cp
 
 LEVEL = 'model_checking'
 RULE = ('cases = environment runs executed on the real code: (a) TLC -simulate behaviours of PMCScen and seeded '
         'adversarial environments on real PageMigrationControllers, (b) seeded migration handshakes on the real '
-        'driver.Driver with scripted GPUs, (c) the same with real command processors and real PMCs; distinct = distinct '
+        'driver.Driver with scripted GPUs, (c) the same with real command processors and real PMCs, (d) TLC behaviours of CPCtrlScen and seeded environments on '
+        'the real cp.CommandProcessor; distinct = distinct '
         'event traces; non-trivial = (a) >= 1 completed migration of >= 2 chunks whose chunk answers were reordered, or '
-        '>= 2 migrations overlapping in time; (b, c) >= 1 completed handshake that re-homed a page')
+        '>= 2 migrations overlapping in time; (b, c) >= 1 completed handshake that re-homed a page; (d, part cpctrl) the '
+        'real cp.CommandProcessor with scripted units: >= 2 request kinds and >= 2 requests answered')
 TSPEC = {'dirs': ['pmc'], 'module': 'PMCTrace.tla', 'cfg': 'PMCTrace.cfg', 'timeout': 3000}
 
 
@@ -236,7 +239,7 @@ def _drive(ctx, drv, args):
 def selftests(ctx, tspec, trace, corruptions, acc):
     """One TLC run per corruption, in parallel."""
     with ThreadPoolExecutor(max_workers=len(corruptions)) as ex:
-        futs = [ex.submit(common.selftest_binding, ctx, tspec, trace, [c]) for c in corruptions]
+        futs = [ex.submit(common.selftest_binding, c19cp.Sub(ctx, 'self'), tspec, trace, [c]) for c in corruptions]
         for f in futs:
             try:
                 acc.selftest += f.result()
@@ -320,7 +323,7 @@ def phase_scen(ctx, drv, thorough, acc):
     stats = _drive(ctx, drv, ['-scen', sfile, '-out', t1])
     ctx.log('replayed %d TLC behaviours on real PMCs: %s' % (len(scen), stats))
     ctx.sample({'scenario_from_TLC_behaviour': scen[0]['steps'][:14]})
-    common.validate_and_triage(ctx, TSPEC, t1, {'cmd': 'c19', 'scenarios': scen})
+    common.validate_and_triage(c19cp.Sub(ctx, 'tri'), TSPEC, t1, {'cmd': 'c19', 'scenarios': scen})
     acc.pmc_traces.append(t1)
     acc.events += stats['events']
     # free-running: akita SerialEngine + DirectConnection + ideal memory controllers, nothing scripted
@@ -328,7 +331,7 @@ def phase_scen(ctx, drv, thorough, acc):
     args4 = ['-real', 200 if thorough else 12, '-reqs', 6, '-maxchunks', 6 if thorough else 4, '-seed', ctx.seed + 5, '-out', t4]
     stats4 = _drive(ctx, drv, args4)
     ctx.log('free-running on akita engine/connections/ideal memory: %s' % stats4)
-    common.validate_and_triage(ctx, TSPEC, t4, {'cmd': 'c19', 'args': args4[:-1]})
+    common.validate_and_triage(c19cp.Sub(ctx, 'tri'), TSPEC, t4, {'cmd': 'c19', 'args': args4[:-1]})
     acc.pmc_traces.append(t4)
     acc.events += stats4['events']
 
@@ -339,7 +342,7 @@ def phase_random(ctx, drv, thorough, acc):
     args = ['-random', nrand, '-reqs', 6 if thorough else 5, '-maxchunks', 6 if thorough else 4, '-seed', ctx.seed, '-out', t2]
     stats2 = _drive(ctx, drv, args)
     ctx.log('random environments on real PMCs: %s' % stats2)
-    common.validate_and_triage(ctx, TSPEC, t2, {'cmd': 'c19', 'args': args[:-1]})
+    common.validate_and_triage(c19cp.Sub(ctx, 'tri'), TSPEC, t2, {'cmd': 'c19', 'args': args[:-1]})
     acc.pmc_traces.append(t2)
     acc.events += stats2['events']
     selftests(ctx, TSPEC, t2, pmc_corruptions(thorough), acc)
@@ -349,7 +352,7 @@ def phase_random(ctx, drv, thorough, acc):
         args3 = ['-random', 4, '-reqs', 2, '-maxchunks', 64, '-seed', ctx.seed + 77, '-out', t3]
         stats3 = _drive(ctx, drv, args3)
         ctx.log('4 KiB pages: %s' % stats3)
-        common.validate_and_triage(ctx, dict(TSPEC, heap='6g'), t3, {'cmd': 'c19', 'args': args3[:-1]})
+        common.validate_and_triage(c19cp.Sub(ctx, 'tri'), dict(TSPEC, heap='6g'), t3, {'cmd': 'c19', 'args': args3[:-1]})
         acc.pmc_traces.append(t3)
         acc.events += stats3['events']
 
@@ -368,14 +371,14 @@ def run_drv(ctx, drv, acc, tag, n, kind, ngpu, seed, sys=False, log2=12, max_rou
     args = base + ['-out', os.path.join(ctx.scratch, 'unused_%s.ndjson' % tag), '-drvout', t, '-syspmcout', tp]
     stats = _drive(ctx, drv, args)
     ctx.log('driver level [%s: %d GPUs, %s%s]: %s' % (tag, ngpu, kind, ', real CPs + PMCs' if sys else ', scripted GPUs', stats))
-    common.validate_and_triage(ctx, dspec(ngpu), t, {'cmd': 'c19', 'level': 'driver', 'ngpu': ngpu, 'args': base},
+    common.validate_and_triage(c19cp.Sub(ctx, 'tri'), dspec(ngpu), t, {'cmd': 'c19', 'level': 'driver', 'ngpu': ngpu, 'args': base},
                                max_rounds=max_rounds)
     acc.drv_traces.append(t)
     if tag == 'stub2':
         acc.first_drv = t
     acc.events += stats['drv_events']
     if sys:
-        common.validate_and_triage(ctx, TSPEC, tp, {'cmd': 'c19', 'level': 'syspmc', 'ngpu': ngpu, 'args': base})
+        common.validate_and_triage(c19cp.Sub(ctx, 'tri'), TSPEC, tp, {'cmd': 'c19', 'level': 'syspmc', 'ngpu': ngpu, 'args': base})
         acc.pmc_traces.append(tp)
         acc.events += stats['drv_pmc_events']
 
@@ -398,7 +401,7 @@ def phase_drv_scen(ctx, drv, thorough, acc):
     stats = _drive(ctx, drv, ['-drvscen', sfile, '-drvout', t, '-out', os.path.join(ctx.scratch, 'unused_ds.ndjson')])
     ctx.log('replayed %d TLC behaviours on the real driver: %s' % (len(scen), stats))
     ctx.sample({'driver_scenario_from_TLC_behaviour': scen[0]['steps'][:12]})
-    common.validate_and_triage(ctx, dspec(2), t, {'cmd': 'c19', 'level': 'driverscen', 'ngpu': 2, 'scenarios': scen})
+    common.validate_and_triage(c19cp.Sub(ctx, 'tri'), dspec(2), t, {'cmd': 'c19', 'level': 'driverscen', 'ngpu': 2, 'scenarios': scen})
     acc.drv_traces.append(t)
     acc.events += stats['drv_events']
 
@@ -424,7 +427,8 @@ def run(ctx, selftest=False):
     thorough = ctx.tier == 'thorough'
     drv = ctx.go_build('c19')
     acc = Acc()
-    jobs = [lambda: phase_mc_pmc(ctx, thorough), lambda: phase_mc_mig(ctx, thorough), lambda: phase_scen(ctx, drv, thorough, acc),
+    cpres = {}
+    jobs = [lambda: cpres.update(c19cp.run_component(ctx)), lambda: phase_mc_pmc(ctx, thorough), lambda: phase_mc_mig(ctx, thorough), lambda: phase_scen(ctx, drv, thorough, acc),
             lambda: phase_random(ctx, drv, thorough, acc), lambda: phase_drv(ctx, drv, thorough, acc),
             lambda: phase_sys(ctx, drv, thorough, acc)]
     with ThreadPoolExecutor(max_workers=len(jobs)) as ex:
@@ -458,6 +462,12 @@ def run(ctx, selftest=False):
                     'handshakes_completed_on_real_driver': sum(1 for _, recs in dparts for r in recs if r['e'] == 'Reply'),
                     'pages_rehomed_on_real_driver': sum(1 for _, recs in dparts for r in recs if r['e'] == 'PTChange')})
 
+    # component part "cpctrl": control choreography of the command processor (checks/c19cp.py)
+    ctx.cov.update({k: v for k, v in cpres.items() if k != 'cp_binding_selftest'})
+    ctx.cov['evaluations'] += cpres.get('cp_traces', 0)
+    ctx.cov['distinct_nontrivial'] += cpres.get('cp_distinct_nontrivial', 0)
+    ctx.cov['events_validated'] += cpres.get('cp_events_validated', 0)
+    acc.selftest += cpres.get('cp_binding_selftest', [])
     ctx.cov['coverage_zero_actions'] = []   # phase_mc_* raise when a -coverage run has an action with zero count
     # binding self-tests of both trace specs ran inside the phases
     ctx.cov['binding_selftest'] = acc.selftest
@@ -476,6 +486,8 @@ def run(ctx, selftest=False):
 
 def replay(ctx, path):
     rp = json.load(open(path))['replay']
+    if rp['driver'].get('part') == 'cpctrl':
+        return c19cp.replay_component(ctx, path)
     drv = ctx.go_build('c19')
     d = rp['driver']
     t = os.path.join(ctx.scratch, 'replay.ndjson')
@@ -500,5 +512,5 @@ def replay(ctx, path):
         args = d['args'] + [t]
     _drive(ctx, drv, args)
     before = len(ctx.violations)
-    common.validate_and_triage(ctx, tspec, t, d)
+    common.validate_and_triage(c19cp.Sub(ctx, 'tri'), tspec, t, d)
     return 1 if len(ctx.violations) > before else 0
